@@ -27,7 +27,7 @@ ASSUMPTIONS = [
     "a SIGALRM wall-clock cap is only a safety net (exit 2)",
 ]
 
-FAULTS = ("eof", "reset", "write_error", "garbage_eof", "sorry")
+FAULTS = ("eof", "reset", "write_error", "garbage_eof", "sorry", "sorry_reset_send")
 
 
 def valid_packet(kind, src=5, sid=1):
@@ -55,7 +55,7 @@ def scripts(draw, kind):
     n = draw(st.integers(1, 3))
     eps = []
     for _ in range(n):
-        kinds = [f for f in FAULTS if f != "sorry" or kind == "ebyte"]
+        kinds = [f for f in FAULTS if f not in ("sorry", "sorry_reset_send") or kind == "ebyte"]
         if kind == "actisense":
             kinds = [f for f in kinds if f != "write_error"]   # the Actisense client cannot send (C19)
         eps.append({"fault": draw(st.sampled_from(kinds)),
@@ -137,6 +137,17 @@ def run_script(kind, script):
             link.eof()
         elif f == "sorry":
             link.feed(b"Sorry,Limited")
+        elif f == "sorry_reset_send":
+            # the busy gateway says so and hangs up; the client's reader sits out its 30 s pause, meanwhile the application sends: only
+            # the write side notices the dead link and starts the reconnection while the old receive task is still alive
+            link.feed(b"Sorry,Limited")
+
+            def then():
+                from nmea2000.message import NMEA2000Field, NMEA2000Message
+                link.reset()
+                m = NMEA2000Message(PGN=59904, id="isoRequest", fields=[NMEA2000Field(id="pgn", value=60928, raw_value=60928)], source=0, destination=255, priority=6)
+                s.loop.call_later(0.05, lambda: asyncio.ensure_future(s.client.send(m)))
+            s.loop.call_later(0.05, then)
         elif f == "write_error":
             s.gw.write_actions[s.gw.total_writes + 1] = ("fail",)
             from nmea2000.message import NMEA2000Field, NMEA2000Message
@@ -177,6 +188,16 @@ def run_script(kind, script):
             link.feed(valid_packet(kind, sid=99))
             await asyncio.sleep(2.0)
             s.probe_delivered = len(s.received) > before
+            # the link is healthy from here on: nothing may happen to it by itself (a left-over task of an earlier link, a stale timer)
+            mark = (len(s.gw.attempts), len(s.status_trace), len(s.gw.links))
+            await asyncio.sleep(40.0)
+            s.quiet_after = (len(s.gw.attempts), len(s.status_trace), len(s.gw.links)) == mark
+            s.after_trace = [x for _, x in s.status_trace[mark[1]:]]
+            if s.quiet_after:
+                before = len(s.received)
+                s.gw.link.feed(valid_packet(kind, sid=98))
+                await asyncio.sleep(1.0)
+                s.probe2_delivered = len(s.received) > before
         s.final_state = c.state.name
         await c.close()
         for comp in s.companions:
@@ -249,6 +270,12 @@ def evaluate(kind, script, outcome, s):
     for t in acc:
         if not any(st_ == "CONNECTED" and t - 1e-9 <= ts <= t + 45 for ts, st_ in s.status_trace):
             out.append((f"C13|{kind}|no-connected", f"gateway accepted at t={t - s.t0:.2f} but CONNECTED was not reported within 45 virtual s", case))
+    if getattr(s, "quiet_after", True) is False:
+        last = s.fault_times[-1][1] if s.fault_times else "initial"
+        out.append((f"C13|{kind}|healthy-link-dropped|{last}", f"40 virtual s after the recovery, without any new fault: status {s.after_trace}, {len(s.gw.links)} links, "
+                    f"{len(s.gw.attempts)} attempts", case))
+    elif getattr(s, "probe2_delivered", True) is False:
+        out.append((f"C13|{kind}|no-delivery-later", "a frame fed 40 virtual s after the recovery did not reach the receive callback", case))
     if s.probe_delivered is False:
         out.append((f"C13|{kind}|no-delivery-after-recovery", f"frame fed after recovery did not reach the receive callback (final state {s.final_state})", case))
     return out
@@ -318,7 +345,13 @@ def _special(ctx: Ctx, item):
             ctx.report(b + ("|long-outage" if what == "long" else "|connect-errors" if what == "errors" else "|second-client"), w, c)
 
 
+def _sweep(ctx: Ctx, item):
+    from .. import clientopts as co
+    co.sweep_through_client(ctx, "C13", item[0], item[1], item[2], compare=False)
+
+
 def run(ctx: Ctx):
+    pmap(ctx, _sweep, [(k, part, 4) for k in aio.CLIENT_KINDS for part in range(4)])
     import os
     pmap(ctx, _special, [(k, w) for k in aio.CLIENT_KINDS for w in (("companion", "errors") if os.environ.get("VF_SUBPASS") else ("companion", "errors", "long"))])
     n = 25 if ctx.quick else 2500
@@ -327,7 +360,7 @@ def run(ctx: Ctx):
     jobs = []
     for kind in aio.CLIENT_KINDS:
         for f in FAULTS:
-            if f == "sorry" and kind != "ebyte":
+            if f in ("sorry", "sorry_reset_send") and kind != "ebyte":
                 continue
             if f == "write_error" and kind == "actisense":
                 continue
@@ -337,6 +370,11 @@ def run(ctx: Ctx):
 
 
 def replay(ctx: Ctx, case):
+    if "sweep_client" in case:
+        sub = Ctx(ctx.pid)
+        sub.known_open = {}
+        _sweep(sub, (case["sweep_client"], case["part"], case["parts"]))
+        return [(b, v["what"], v["case"]) for b, v in sub.found.items()]
     script = case["script"]
     for ep in script["episodes"]:
         ep["at"] = tuple(ep["at"])
